@@ -8,7 +8,8 @@
                    fo.write(dumps(state)); fo.flush() in one critical section: after a finishing hook returns the
                    disk holds the whole record.  Save.done() writes the still-active flows and closes.  Streaming is
                    switched on by an option update (OpenStream), may be stopped (Done) and resumed in append mode;
-                   flows may start while it is off (not tracked) and may complete twice (response, then error).
+                   flows may start while it is off (not tracked) and may complete twice (response, then error).  The
+                   file spec may be a strftime pattern: the file is rotated when the formatted name changes (Tick).
    A record is 6 abstract units long: digits [0,2) colon 2 payload [3,5) tag 5; record i of the stream ends at 6*i.
    Crash(n, part): the file is cut after n complete records, inside part `part` of record n+1 ("boundary": none).
    Recover mirrors FlowReader.stream/tnetstring.load on the cut image: n flows, then
@@ -17,9 +18,9 @@
        after_colon/payload/tag -> file_handle.read(1)[0] at EOF -> IndexError -> outer handler
    OuterMapped: the classes the outer handler of FlowReader.stream turns into FlowReadException.              *)
 EXTENDS Mon_FlowCrash, TLC
-CONSTANTS Kinds, Modes, MaxFlows, MaxCrash, MaxOpen, AllowRefinish, OuterMapped
-VARIABLES mode, flows, stream, ondisk, open, nopen, cut, ncrash, nid, mon, obs
-vars == <<mode, flows, stream, ondisk, open, nopen, cut, ncrash, nid, mon, obs>>
+CONSTANTS Kinds, Modes, MaxFlows, MaxCrash, MaxOpen, AllowRefinish, PathSpecs, MaxRotate, OuterMapped
+VARIABLES mode, flows, stream, ondisk, open, nopen, spec, nrot, cut, ncrash, nid, mon, obs
+vars == <<mode, flows, stream, ondisk, open, nopen, spec, nrot, cut, ncrash, nid, mon, obs>>
 \* flows  : sequence of [s, t, st] (st: "active" | "finished"), stream-mode flows in the order of their start hook
 \* stream : sequence of [s, t]: the records handed to the file object so far, in order (the logical byte stream)
 \* ondisk : number of records of `stream` that are certainly on disk (flushed)
@@ -29,7 +30,7 @@ Parts == {"boundary", "digits", "colon", "after_colon", "payload", "tag"}
 Code(p) == CASE p = "boundary" -> 0 [] p = "digits" -> 1 [] p = "colon" -> 2 [] p = "after_colon" -> 3
              [] p = "payload" -> 4 [] p = "tag" -> 5
 
-Init == /\ mode \in Modes /\ flows = <<>> /\ stream = <<>> /\ ondisk = 0 /\ open = (mode = "save") /\ nopen = 0 /\ cut = <<>>
+Init == /\ mode \in Modes /\ flows = <<>> /\ stream = <<>> /\ ondisk = 0 /\ open = (mode = "save") /\ nopen = 0 /\ spec = "literal" /\ nrot = 0 /\ cut = <<>>
         /\ ncrash = 0 /\ nid = 0 /\ mon = MonInit /\ obs = <<>>
 Emit(evs) == obs' = evs /\ mon' = FoldEvents(MonStep, mon, evs)
 Live == mon.bad = <<>>
@@ -41,29 +42,41 @@ DiskEv(n) == [k |-> "disk", ids |-> Ids(SubSeq(stream', 1, n)), end |-> "clean",
 SaveAdd(t) ==
   /\ Live /\ mode = "save" /\ open /\ cut = <<>> /\ Len(stream) < MaxFlows /\ ncrash = 0
   /\ stream' = Append(stream, [s |-> nid + 1, t |-> t]) /\ nid' = nid + 1
-  /\ UNCHANGED <<mode, flows, ondisk, open, nopen, cut, ncrash>>
+  /\ UNCHANGED <<mode, flows, ondisk, open, nopen, spec, nrot, cut, ncrash>>
   /\ Emit(<<[k |-> "written", s |-> nid + 1, t |-> t, to |-> 6 * (Len(stream) + 1)]>>)
 
 \* with-block exit: close() flushes everything
 SaveClose ==
   /\ Live /\ mode = "save" /\ open /\ cut = <<>> /\ Len(stream) > 0 /\ ncrash = 0
   /\ open' = FALSE /\ ondisk' = Len(stream)
-  /\ UNCHANGED <<mode, flows, stream, nopen, cut, ncrash, nid>>
+  /\ UNCHANGED <<mode, flows, stream, nopen, spec, nrot, cut, ncrash, nid>>
   /\ Emit(<<>>)
 
-\* options update: save_stream_file set (first time "path", after a stop "+path"): maybe_rotate_to_new_file opens the file
-OpenStream ==
+\* options update: save_stream_file set (first time "spec", after a stop "+spec"): maybe_rotate_to_new_file formats the
+\* spec with strftime and opens that file.  p: the spec is a literal path, or a pattern with % directives.
+OpenStream(p) ==
   /\ Live /\ mode = "stream" /\ ~open /\ nopen < MaxOpen /\ cut = <<>> /\ ncrash = 0
-  /\ open' = TRUE /\ nopen' = nopen + 1
-  /\ UNCHANGED <<mode, flows, stream, ondisk, cut, ncrash, nid>>
-  /\ Emit(<<[k |-> "hook", name |-> IF nopen = 0 THEN "open" ELSE "resume"], DiskEv(Len(stream))>>)
+  /\ p \in PathSpecs /\ (nopen = 0 \/ p = spec)
+  /\ open' = TRUE /\ nopen' = nopen + 1 /\ spec' = p
+  /\ UNCHANGED <<mode, flows, stream, ondisk, nrot, cut, ncrash, nid>>
+  /\ Emit(<<[k |-> "hook", name |-> IF nopen = 0 THEN "open" ELSE "resume", spec |-> p], DiskEv(Len(stream))>>)
+
+\* the clock moves on so that a pattern spec formats to a NEW file name.  save_flow calls maybe_rotate_to_new_file before
+\* every write: formatted name = current_path -> keep the stream, else open the new file and close the old one (done()
+\* does not rotate).  The files of one stream are only ever appended to in sequence, so `stream` (their concatenation
+\* in the order they were opened) is unaffected: a rotation loses nothing.
+Tick ==
+  /\ Live /\ mode = "stream" /\ spec = "pattern" /\ nopen > 0 /\ nrot < MaxRotate /\ cut = <<>> /\ ncrash = 0
+  /\ nrot' = nrot + 1
+  /\ UNCHANGED <<mode, flows, stream, ondisk, open, nopen, spec, cut, ncrash, nid>>
+  /\ Emit(<<[k |-> "hook", name |-> "tick"], DiskEv(Len(stream))>>)
 
 \* Save.request / tcp_start / udp_start / dns_request: `if self.stream: active_flows.add(flow)`; nothing is written.
 \* While streaming is off (before it is enabled, or between a stop and a resume) the flow is NOT tracked ("early").
 Start(t) ==
   /\ Live /\ mode = "stream" /\ cut = <<>> /\ Len(flows) < MaxFlows /\ ncrash = 0
   /\ flows' = Append(flows, [s |-> nid + 1, t |-> t, st |-> IF open THEN "active" ELSE "early"]) /\ nid' = nid + 1
-  /\ UNCHANGED <<mode, stream, ondisk, open, nopen, cut, ncrash>>
+  /\ UNCHANGED <<mode, stream, ondisk, open, nopen, spec, nrot, cut, ncrash>>
   /\ Emit(<<[k |-> "hook", name |-> IF open THEN "start" ELSE "early_start"]>>
           \o (IF nopen > 0 THEN <<DiskEv(Len(stream))>> ELSE <<>>))
 
@@ -77,7 +90,7 @@ Finish(i) ==
   /\ flows' = [flows EXCEPT ![i].st = "finished", ![i].s = nid + 1] /\ nid' = nid + 1
   /\ stream' = Append(stream, [s |-> nid + 1, t |-> flows[i].t])
   /\ ondisk' = Len(stream) + 1
-  /\ UNCHANGED <<mode, open, nopen, cut, ncrash>>
+  /\ UNCHANGED <<mode, open, nopen, spec, nrot, cut, ncrash>>
   /\ Emit(<<[k |-> "written", s |-> nid + 1, t |-> flows[i].t, to |-> 6 * (Len(stream) + 1)],
             [k |-> "finished", s |-> nid + 1, t |-> flows[i].t],
             DiskEv(Len(stream) + 1)>>)
@@ -89,7 +102,7 @@ Refinish(i) ==
   /\ flows' = [flows EXCEPT ![i].st = "finished2", ![i].s = nid + 1] /\ nid' = nid + 1
   /\ stream' = Append(stream, [s |-> nid + 1, t |-> flows[i].t])
   /\ ondisk' = Len(stream) + 1
-  /\ UNCHANGED <<mode, open, nopen, cut, ncrash>>
+  /\ UNCHANGED <<mode, open, nopen, spec, nrot, cut, ncrash>>
   /\ Emit(<<[k |-> "written", s |-> nid + 1, t |-> flows[i].t, to |-> 6 * (Len(stream) + 1)],
             [k |-> "hook", name |-> "second_completion"],
             [k |-> "finished", s |-> nid + 1, t |-> flows[i].t],
@@ -109,14 +122,14 @@ Done ==
              /\ Emit(<<[k |-> "written", s |-> flows[i].s, t |-> flows[i].t, to |-> 6 * (Len(stream) + 1)],
                        [k |-> "hook", name |-> "done"], DiskEv(Len(stream) + 1)>>)
   /\ open' = FALSE /\ ondisk' = Len(stream')
-  /\ UNCHANGED <<mode, nopen, cut, ncrash, nid>>
+  /\ UNCHANGED <<mode, nopen, spec, nrot, cut, ncrash, nid>>
 
 \* the process dies: the file holds n complete records and record n+1 up to part p
 Crash(n, p) ==
   /\ Live /\ ncrash < MaxCrash /\ Len(stream) > 0
   /\ n \in 0..Len(stream) /\ p \in Parts /\ (p # "boundary" => n < Len(stream))
   /\ cut' = <<n, p>> /\ ncrash' = ncrash + 1
-  /\ UNCHANGED <<mode, flows, stream, ondisk, open, nopen, nid>>
+  /\ UNCHANGED <<mode, flows, stream, ondisk, open, nopen, spec, nrot, nid>>
   /\ Emit(<<[k |-> "crash", at |-> 6 * n + Code(p), part |-> p]>>)
 
 Maps(S, e) == "*" \in S \/ e \in S
@@ -129,11 +142,12 @@ Recover ==
      IN Emit(<<[k |-> "recover", ids |-> Ids(SubSeq(stream, 1, n)), end |-> end,
                 exc |-> IF end = "clean" THEN "" ELSE IF end = "fre" THEN "FlowReadException" ELSE exc]>>)
   /\ cut' = <<>>
-  /\ UNCHANGED <<mode, flows, stream, ondisk, open, nopen, ncrash, nid>>
+  /\ UNCHANGED <<mode, flows, stream, ondisk, open, nopen, spec, nrot, ncrash, nid>>
 
 Next == \/ \E t \in Kinds : SaveAdd(t)
         \/ SaveClose
-        \/ OpenStream
+        \/ \E p \in PathSpecs : OpenStream(p)
+        \/ Tick
         \/ \E t \in Kinds : Start(t)
         \/ \E i \in 1..MaxFlows : Finish(i)
         \/ \E i \in 1..MaxFlows : Refinish(i)
